@@ -16,6 +16,7 @@ import CapyV.Driver.C05
 import CapyV.Driver.C08
 import CapyV.Driver.C14
 import CapyV.Driver.C09
+import CapyV.Driver.C01
 import CapyV.Driver.C02
 import CapyV.Driver.C15
 import CapyV.Driver.C11
@@ -45,6 +46,7 @@ def dispatch (line : String) : String :=
   | "C08" :: args => c08 args
   | "C14" :: args => c14 args
   | "C09" :: args => c09 args
+  | "C01" :: args => c01 args
   | "C02" :: args => c02 args
   | "C15" :: args => c15 args
   | "C11" :: args => c11 args
